@@ -15,9 +15,9 @@ def add(pid, technique, text, note, ref):
 
 add("C13", "Hypothesis generated search + exhaustive small-lattice enumeration vs brute-force exact-rational dominance oracle",
     "Generated-input search: every sequence of <=4/5 points of small 2-D/3-D lattices under 8 exact cones is enumerated, "
-    "plus thousands of random (cone incl. K>m, integer-dtype and sheared matrices; point list) cases with ties, chains and duplicates up to 300 points; the returned index "
+    "plus thousands of random (cone incl. K>m, integer-dtype and sheared matrices; point list) cases with ties, chains, duplicates, far-from-origin, tiny-scale and ulp-neighbour sets up to 300 points; the returned index "
     "arrays of both routines are compared with a brute-force dominance matrix evaluated in exact rational arithmetic.",
-    "Trusted: Python fractions, numpy indexing; cones pointed+solid; lattice spacing >= 1/4 (np.allclose in the naive routine).",
+    "Trusted: Python fractions, numpy indexing; cones pointed+solid; coordinates dyadic (or full-mantissa values a few ulps apart), translated up to 3e6 and rescaled by 2^-60..2^20, so that differences and facet products of differences are exact.",
     "DESIGN.md section 3 C13")
 
 add("C12", "Hypothesis generated search + lattice enumeration vs exact rational facet inequalities; angle sweeps vs closed forms",
@@ -47,13 +47,15 @@ add("C20", "Hypothesis generated datasets/queries vs brute-force nearest row; di
 add("C09", "Hypothesis margin-targeted region pairs vs closed-form support-function oracle (exact rationals on dyadic data)",
     "Pairs of hyper-rectangles / ellipsoids are placed by the generator at certified facet margins +-{1..1e-5} x scale for every cone class "
     "(K>=m, 2-4-D) and scalar/vector slacks; confidence_region_is_dominated is compared with per-facet support-function minima; dyadic "
-    "rectangles are decided in exact rational arithmetic, boundary included.",
+    "rectangles are decided in exact rational arithmetic, boundary included; the same for region objects that were compared once and then moved "
+    "through update(), for regions far from the origin and for small ellipsoids written as a large radius times a tiny correlated covariance.",
     "Band: rectangles 1e-11*scale, ellipsoids 2e-7+2e-6*scale (measured flip level of the SOCP path <= 1e-8); slacks non-negative.",
     "DESIGN.md section 3 C09")
 add("C10", "Hypothesis margin-targeted region pairs vs certificate-checked LP / convex-dual oracles",
     "confidence_region_is_covered is compared with a certified bracket [lb,ub] of the max-min cover margin: boxes by an LP (HiGHS) whose primal witness "
     "and dual separating functional are re-verified by arithmetic, ellipsoids by the convex dual over the simplex plus primal recovery; pairs are "
-    "placed at margins +-{1..3e-3} x scale over scales 1e-4..1e2, all cone classes and slack forms.",
+    "placed at margins +-{1..3e-3} x scale over scales 1e-4..1e2, all cone classes and slack forms; also on region objects reused after update() "
+    "and on small strongly correlated ellipsoids (covariance entries <= 1e-8).",
     "Band 1e-9+1e-3*scale = measured accuracy of the code's SCS fallback path; an oracle bracket straddling the band counts indeterminate.",
     "DESIGN.md section 3 C10")
 add("C11", "Hypothesis margin-targeted rectangle pairs and families vs per-vertex LP oracle with verified certificates",
